@@ -59,7 +59,7 @@ pub fn property(id: &str) -> Option<PropertySpec> {
             id: "C16",
             rule: hist::C16_RULE,
             assumptions: vec![ORACLE, SETUP, "harness and engine are compiled with overflow-checks and debug-assertions on"],
-            checks: vec![Box::new(hist::C16Games)],
+            checks: vec![Box::new(hist::C16Games), Box::new(game::C16GameApi)],
         },
         "C02" => PropertySpec {
             id: "C02",
